@@ -227,15 +227,16 @@ def oracle_wb(lines, out, bits=None):
 class Sim:
     def __init__(self):
         self.pools = {}     # slot -> dict(auto, acc, kind, reserved)
-        self.scheds = {}    # slot -> dict(pools, auto, used, fresh)
+        self.scheds = {}    # slot -> dict(pools, auto, used, req, stale)   req: request word, stale: keeps a p_replace_sched
         self.xs = {}        # slot -> dict(main, state)   state: run | joined
+        self.bits = dict(FINISH=1, EXIT=2, REPLACE=4)
 
     def count(self, p):
         return sum(s["pools"].count(p) for s in self.scheds.values())
 
     def dump(self, status):
         ps = " ".join("%d=%d" % (p, self.count(p)) for p in sorted(self.pools))
-        ks = " ".join("%d:%s" % (k, self.scheds[k]["used"]) for k in sorted(self.scheds))
+        ks = " ".join("%d:%s:%d" % (k, self.scheds[k]["used"], self.scheds[k]["req"]) for k in sorted(self.scheds))
         return "%s | pools%s | scheds%s" % (status, " " + ps if ps else "", " " + ks if ks else "")
 
     def free_sched(self, k):
@@ -297,7 +298,7 @@ def sim_apply(sim, line):
         for p, isnew in sl:
             if isnew:
                 sim.pools[p] = dict(auto=True, acc="mpmc", kind="fifo", reserved=True)
-        sim.scheds[k] = dict(pools=ids, auto=auto, used="notused", fresh=True)
+        sim.scheds[k] = dict(pools=ids, auto=auto, used="notused", req=0, stale=False)
         return True
 
     def attachable(k, x_replacing=None):
@@ -322,7 +323,7 @@ def sim_apply(sim, line):
         if sim.xs or sim.pools or sim.scheds:
             return "err", False
         sim.pools[0] = dict(auto=True, acc="mpmc", kind="fifo", reserved=True)
-        sim.scheds[0] = dict(pools=[0], auto=True, used="main", fresh=False)
+        sim.scheds[0] = dict(pools=[0], auto=True, used="main", req=0, stale=False)
         sim.xs[0] = dict(main=0, state="run")
         return "ok", True
     if not sim.xs:
@@ -367,7 +368,7 @@ def sim_apply(sim, line):
                 return None, False
             if sim.scheds[k]["used"] != "notused":
                 return "err", True
-            if not sim.scheds[k]["fresh"] or not attachable(k):
+            if not attachable(k):
                 return None, False
         else:
             if not (w[2].startswith("n") and w[3].startswith("n")):
@@ -375,7 +376,7 @@ def sim_apply(sim, line):
             k = num(w[2][1:])
             if not new_sched(k, parse_slots([w[3]]), True):
                 return None, False
-        sim.scheds[k].update(used="main", fresh=False)
+        sim.scheds[k].update(used="main", req=0)      # an attachment clears the request word, whatever the scheduler did before
         sim.xs[x] = dict(main=k, state="run")
         return "ok", True
     if op == "xsb" and len(w) >= 5:
@@ -386,7 +387,7 @@ def sim_apply(sim, line):
         if not new_sched(k, parse_slots(w[4:]), True) or not attachable(k):
             sim.pools, sim.scheds = keep
             return None, False
-        sim.scheds[k].update(used="main", fresh=False)
+        sim.scheds[k].update(used="main", req=0)
         sim.xs[x] = dict(main=k, state="run")
         return "ok", True
     if op in ("join", "revive", "xfree") and len(w) == 2:
@@ -395,6 +396,7 @@ def sim_apply(sim, line):
             return None, False
         if op == "join":
             sim.xs[x]["state"] = "joined"
+            sim.scheds[sim.xs[x]["main"]]["req"] |= sim.bits["FINISH"]
         elif op == "revive":
             if sim.xs[x]["state"] != "joined":
                 return None, False
@@ -402,8 +404,10 @@ def sim_apply(sim, line):
                 if sim.pools[p]["acc"] == "priv" and sim.runners(p) > 1:
                     return None, False
             sim.xs[x]["state"] = "run"
+            sim.scheds[sim.xs[x]["main"]]["req"] = 0
         else:
             k = sim.xs.pop(x)["main"]
+            sim.scheds[k]["req"] |= sim.bits["FINISH"]      # free = join + free
             sim.discard(k)
         return "ok", True
     if op in ("setmain", "setmainb"):
@@ -417,8 +421,6 @@ def sim_apply(sim, line):
                 return None, False
             if sim.scheds[k]["used"] != "notused":
                 return "err", True
-            if not sim.scheds[k]["fresh"]:
-                return None, False
         elif op == "setmain" and len(w) == 4:
             if not (w[2].startswith("n") and w[3].startswith("n")):
                 return None, False
@@ -437,12 +439,19 @@ def sim_apply(sim, line):
         # the current scheduler then never stops and the replacement never happens (reported as a candidate defect).
         p0 = sim.scheds[k]["pools"][0]
         waits = x == 0 or sim.xs[x]["state"] == "run"
+        old = sim.xs[x]["main"]
         if (x == 0 and not sim.pools[p0]["reserved"]) or not attachable(k, x) or (
-                waits and sim.pools[p0]["acc"] == "priv" and p0 in sim.scheds[sim.xs[x]["main"]]["pools"]):
+                waits and sim.pools[p0]["acc"] == "priv" and p0 in sim.scheds[old]["pools"]) or (
+                # open finding F16 above; below: the current scheduler still carries the p_replace_sched of an earlier
+                # replacement (it was replaced, survived as a user-owned object and was attached again): the next same-stream
+                # replacement takes the "overwrite" branch on that dangling pointer (candidate defect, reported)
+                waits and sim.scheds[old]["stale"]):
             sim.pools, sim.scheds = keep
             return None, False
-        old = sim.xs[x]["main"]
-        sim.scheds[k].update(used="main", fresh=False)
+        if waits:
+            sim.scheds[old]["req"] |= sim.bits["REPLACE"]
+            sim.scheds[old]["stale"] = True
+        sim.scheds[k].update(used="main", req=0)
         sim.xs[x]["main"] = k
         sim.discard(old)
         return "ok", True
@@ -553,8 +562,8 @@ def gen_hist(rng, nops, hist):
         secondary = [x for x in sim.xs if x != 0]
         running = [x for x in secondary if sim.xs[x]["state"] == "run"]
         joined = [x for x in secondary if sim.xs[x]["state"] == "joined"]
-        fresh = [k for k, s in sim.scheds.items() if s["fresh"] and s["used"] == "notused"]
         idle = [k for k, s in sim.scheds.items() if s["used"] == "notused"]
+        fresh = idle      # any unused scheduler object may be attached, also one that served / was replaced on another stream
         if r < 12 and len(ups) < 6:
             emit("pool %d %d %s %s" % (fresh_pool(), 1 if rng.chance(1, 4) else 0,
                                        rng.choice(ACCS + ["mpmc", "mpmc"]), rng.choice(KINDS)), "pool")
